@@ -45,10 +45,8 @@ CLAIMS = {
     "C06": ("model_checking", "Partial, mostly bounded. Proof (Verus): every timer the parser emits has a name or a quantity. Bounded (Kani, "
             "on a RecipeCollector built the way parse_events builds it): an intermediate reference to a step / section is accepted "
             "exactly when that earlier step of the same section / earlier section exists and resolves to its index (K14); a new "
-            "reference is listed back by its definition exactly once, as the index it is about to get (K16); thorough tier: "
-            "resolve_reference links a component to the last earlier definition with the same name, never to a reference, and marks "
-            "it as a reference to that index (K15: two earlier cookware items, one-letter names). Step numbering, item indices, "
-            "non-emptiness and the whole-recipe statement are not decided.", VERUS + " + " + KANI + " (bounded stand-ins, labelled bounded)"),
+            "reference is listed back by its definition exactly once, as the index it is about to get (K16). resolve_reference "
+            "(name matching), step numbering, item indices, non-emptiness and the whole-recipe statement are not decided.", VERUS + " + " + KANI + " (bounded stand-ins, labelled bounded)"),
     "C07": ("proof", "Partial. Leaf parse-stage checks as postconditions: check_modifiers / check_empty_name emit exactly one error iff "
             "the forbidden construct is present; section / metadata_entry / check_alias / check_note / comp_body emit at most one "
             "diagnostic of the documented severity; all diagnostics queued by component parsers are Error/Warning events "
@@ -107,6 +105,7 @@ NA_REASON = {
 checks = []
 for pid in sorted(plan["properties"]):
     cat, txt, tech = CLAIMS[pid]
+    cat = plan["properties"][pid].get("level", cat)
     checks.append({
         "property_id": pid,
         "quick_cmd": f"./check {pid} --tier quick",
